@@ -94,7 +94,8 @@ def run(tier, seed):
     # corpus histories first
     for path in sorted(glob.glob(os.path.join(CORPUS, '*.json'))):
         w = json.load(open(path))
-        cases.insert(0, dict(claims=[G.dec(c) for c in w.get('claims', [])], calls=w['calls'], corpus=os.path.basename(path)))
+        cases.insert(0, dict(claims=[G.dec(c) for c in w.get('claims', [])], calls=w['calls'], corpus=os.path.basename(path),
+                             expect_signature=w.get('expect_signature')))
     lines = [f'TRACE G {IC.claims_txt(c["claims"])} {" ".join(c["calls"])}'.rstrip() for c in cases]
     impl = IC.run_impl(lines)
     mlines = []
@@ -110,29 +111,28 @@ def run(tier, seed):
             mlines.append(f'TRACE G {IC.claims_txt(c["claims"])} {x}'.rstrip())
     model = IC.run_model(exe, mlines) if exe else ['<nomodel>'] * len(mlines)
 
-    # Rust requests: one per accepted call
+    # Rust requests: one per accepted call, built from the IMPLEMENTATION's answer alone
     rlines, rmeta = [], []
     for ci, (c, mans) in enumerate(zip(cases, model)):
+        c['ri'] = None
         if c['x'] is None:
             continue
         hi = IC.parse_ser(c['impl'])
+        ri = IC.parse_records(c['impl'])
+        if hi is None or any(a is None for a in ri):
+            mismatches.append(('runner-output', lines[ci][:500], c['impl'][:300]))
+            continue
         hm = IC.parse_ser(mans)
-        if hi is None or hm is None or hi['head'] != hm['head']:
+        rm = IC.parse_records(mans) if hm else []
+        c['ri'], c['rm'], c['hi'], c['hm'] = ri, rm, hi, hm
+        if hm is None or hi['head'] != hm['head']:
             mismatches.append(('ser', lines[ci][:500], f'impl={c["impl"][:300]} model={mans[:300]}'))
-            c['x'] = None
-            continue
-        ri, rm = IC.parse_records(c['impl']), IC.parse_records(mans)
-        if len(ri) != len(rm) or any(a is None or b is None for a, b in zip(ri, rm)):
-            mismatches.append(('trace-shape', lines[ci][:500], ''))
-            c['x'] = None
-            continue
-        c['ri'], c['rm'], c['hi'] = ri, rm, hi
         files = {'G': '', 'C': '', 'P': ''}
         ph = 'G'
         full = {'G': '' if hi['G'] == '-' else hi['G'], 'C': '' if hi['C'] == '-' else hi['C'],
                 'P': '' if hi['P'] == '-' else hi['P']}
         off = {'G': 0, 'C': 0, 'P': 0}
-        for k, (a, b) in enumerate(zip(ri, rm)):
+        for k, a in enumerate(ri):
             # bytes of call k went to the sink of the phase BEFORE the call
             files[ph] = full[ph][:2 * (off[ph] + a['n'])]
             off[ph] += a['n']
@@ -141,12 +141,14 @@ def run(tier, seed):
             rmeta.append((ci, k))
     rout = C.run_lines_parallel(rs, rlines) if rs else ['<norust>'] * len(rlines)
     rust = {}
-    for (ci, k), o in zip(rmeta, rout):
+    rreq = {}
+    for (ci, k), o, req in zip(rmeta, rout, rlines):
         rust[(ci, k)] = o
+        rreq[(ci, k)] = req
 
     n_div = {}
     for ci, c in enumerate(cases):
-        if c['x'] is None:
+        if c.get('ri') is None:
             continue
         ri, rm, hi = c['ri'], c['rm'], c['hi']
         names = [IC.call_name(x) for x in c['calls']]
@@ -154,21 +156,25 @@ def run(tier, seed):
         marks = []
         old_len = 0
         diverged = False
-        for k, (a, b) in enumerate(zip(ri, rm)):
+        tie_ok = c['hm'] is not None and hi['head'] == c['hm']['head']
+        prefix_ok = True          # model and implementation agreed on every earlier call of this history
+        sig = None
+        for k, a in enumerate(ri):
             name = names[k]
             key = (lines[ci], k)
+            b = rm[k] if k < len(rm) else None
             # --- tie A: Python tracker vs model tracker, bytes
-            if (a['tracker'], a['n']) != (b['tracker'], b['n']):
+            if prefix_ok and (b is None or (a['tracker'], a['n']) != (b['tracker'], b['n'])):
+                prefix_ok = False
                 mismatches.append(('tracker', f'{lines[ci][:400]} @call {k} {c["x"].split()[k]}',
-                                   f'impl={a["tracker"][:200]} n={a["n"]} model={b["tracker"][:200]} n={b["n"]}'))
+                                   f'impl={a["tracker"][:200]} n={a["n"]} model=' + (f'{b["tracker"][:200]} n={b["n"]}' if b else 'none')))
                 R.case(key, True, 'tracker-MISMATCH')
-                break
             ro = rust.get((ci, k), '<norust>')
-            # --- tie B: Rust vs the checker model on the same files
-            if ro != b['mach']:
-                mismatches.append(('machine', f'{rlines[rmeta.index((ci, k))][:300]}', f'rust={ro[:200]} model={b["mach"][:200]}'))
+            # --- tie B: Rust vs the checker model on the same files (only while the bytes are the same)
+            if prefix_ok and tie_ok and ro != b['mach']:
+                mismatches.append(('machine', rreq[(ci, k)][:300], f'rust={ro[:200]} model={b["mach"][:200]}'))
                 R.case(key, True, 'machine-MISMATCH')
-                break
+                prefix_ok = False
             # --- oracle (implementation only): Rust state vs Python tracker
             stack = split_terms(a['S'])
             marks = next_marks(marks, name, old_len, len(stack))
@@ -181,19 +187,21 @@ def run(tier, seed):
             raw_stack = ','.join(ren_term(t, f) for t in stack)
             want_claims = ','.join(G.show(IC.rename(G.dec(t), f)) for t in split_terms(a['Cl'])) if a['phase'] == 'P' else None
             got = IC.HEADLESS.match(ro) if ro != 'REJECT' else None
-            wf = WF_NAME.get(b['w'], f'wf{b["w"]}')
+            wcode = b['w'] if (b is not None and prefix_ok) else None
             nontrivial = name not in TRIVIAL
 
             def signed(kind):
                 # outside the boundary of the simulation theorem the condition the model names IS the
-                # call-site class (D8 residue read, D9a non-positive mu, ...); inside it, any divergence
-                # is signed by what differs and where
-                return wf if b['w'] else f'{kind}:{name}:inside-boundary'
+                # call-site class (D8 residue read, D9a non-positive mu, ...); inside it (or when the model
+                # has lost track) a divergence is signed by what differs and where
+                if wcode:
+                    return WF_NAME.get(wcode, f'wf{wcode}')
+                return f'{kind}:{name}:' + ('inside-boundary' if wcode == 0 else 'boundary-unknown')
             if ro == 'REJECT':
                 sig = signed('checker-rejects')
                 diverged = True
             elif got is None:
-                mismatches.append(('rust-output', rlines[rmeta.index((ci, k))][:300], ro[:200]))
+                mismatches.append(('rust-output', rreq[(ci, k)][:300], ro[:200]))
                 break
             else:
                 gs, gm, gc = got.group(1), got.group(2), got.group(3)
@@ -218,8 +226,11 @@ def run(tier, seed):
                 oracle_fail.append((sig, 'checker state on the bytes emitted so far differs from the generator-side tracker',
                                     dict(history=lines[ci], call_index=k, call=c['calls'][k], expanded_call=c['x'].split()[k],
                                          tracker=a['tracker'], residue_marks=''.join('1' if m else '0' for m in marks),
-                                         checker=ro, model_wf_code=b['w'], corpus=c.get('corpus'))))
+                                         checker=ro, model_wf_code=wcode, corpus=c.get('corpus'))))
                 break
+        if c.get('corpus') and c.get('expect_signature') and sig != c['expect_signature'] \
+                and not any(o[0] == c['expect_signature'] and o[2].get('history') == lines[ci] for o in oracle_fail):
+            R.notes.append(f'corpus witness {c["corpus"]} no longer shows {c["expect_signature"]} (got {sig})')
         if not diverged and hi['ok']:
             R.sample(lines[ci][:300])
         kind = 'history-' + ('accepted' if hi['ok'] else 'rejected:' + c['exc']) + ('-diverged' if diverged else '')
@@ -259,6 +270,9 @@ def replay(path):
     rep = d.get('replay', d)
     print(json.dumps(d, indent=1)[:3000])
     hist = rep.get('history')
+    if not hist and rep.get('calls'):
+        hist = f'TRACE G {";".join(rep.get("claims", [])) or "-"} {" ".join(rep["calls"])}'
+        rep = dict(rep, call_index=len(rep['calls']) - 1)
     if not hist:
         return 0
     k = rep.get('call_index', 0)
